@@ -7,6 +7,8 @@ Concrete facts about the model's leaf updates, proved by unfolding (no relation 
 
 variable {σ : Type}
 
+namespace Conserve
+
 theorem procQ_isSome_iff (s : KState ℚ σ) (p : EvId) : (s.proc? p).isSome = true ↔ ∃ a ∈ s.procs, a.1 = p := by
   unfold KState.proc?
   rw [Option.isSome_map, List.find?_isSome]
@@ -196,3 +198,5 @@ theorem prePut_res (s : KState ℚ σ) (r : ResId) (e : EvId) (r' : ResId) : Res
   · exact ResSame.rfl' _
 
 end access
+
+end Conserve
